@@ -12,6 +12,7 @@ import (
 	"bytes"
 	"context"
 	"crypto/sha1"
+	"crypto/tls"
 	"encoding/base64"
 	"fmt"
 	"io"
@@ -215,6 +216,8 @@ type vfProxy struct {
 	Handler http.Handler
 	srvOnce sync.Once
 	srv     *httptest.Server
+	tlsOnce sync.Once
+	tlsSrv  *httptest.Server
 	srvLog  *vfLogBuf
 }
 
@@ -541,6 +544,50 @@ func (p *vfProxy) Server() *httptest.Server {
 		p.W.OnClose(func() { p.srv.CloseClientConnections(); p.srv.Close() })
 	})
 	return p.srv
+}
+
+// ServerTLS starts (once) a real TLS http.Server with the proxy as handler: requests arrive with req.TLS != nil,
+// as behind --https-address (needed e.g. for --force-https behaviour on already-secure requests).
+func (p *vfProxy) ServerTLS() *httptest.Server {
+	p.tlsOnce.Do(func() {
+		p.tlsSrv = httptest.NewUnstartedServer(http.HandlerFunc(func(w http.ResponseWriter, r *http.Request) {
+			vfBuildMu.RLock()
+			defer vfBuildMu.RUnlock()
+			p.Handler.ServeHTTP(w, r)
+		}))
+		p.tlsSrv.Config.ErrorLog = log.New(io.Discard, "", 0)
+		p.tlsSrv.StartTLS()
+		p.W.OnClose(func() { p.tlsSrv.CloseClientConnections(); p.tlsSrv.Close() })
+	})
+	return p.tlsSrv
+}
+
+// WireTLS is Wire over TLS (certificate not verified).
+func (p *vfProxy) WireTLS(r *vfReq) *vfResp {
+	srv := p.ServerTLS()
+	addr := strings.TrimPrefix(srv.URL, "https://")
+	c, err := tls.DialWithDialer(&net.Dialer{Timeout: 5 * time.Second}, "tcp", addr, &tls.Config{InsecureSkipVerify: true}) // #nosec G402 -- loopback test server
+	if err != nil {
+		return &vfResp{Err: "dial: " + err.Error(), Header: http.Header{}}
+	}
+	defer c.Close()
+	_ = c.SetDeadline(time.Now().Add(60 * time.Second))
+	rr := r.Clone()
+	rr.Headers = append(rr.Headers, [2]string{"Connection", "close"})
+	if _, err := c.Write(rr.Bytes()); err != nil {
+		return &vfResp{Err: "write: " + err.Error(), Header: http.Header{}}
+	}
+	br := bufio.NewReader(c)
+	res, err := http.ReadResponse(br, &http.Request{Method: r.Method})
+	for n := 0; err == nil && res.StatusCode >= 100 && res.StatusCode < 200 && res.StatusCode != 101 && n < 10; n++ {
+		res, err = http.ReadResponse(br, &http.Request{Method: r.Method})
+	}
+	if err != nil {
+		return &vfResp{Err: "read: " + err.Error(), Header: http.Header{}}
+	}
+	defer res.Body.Close()
+	body, _ := io.ReadAll(res.Body)
+	return &vfResp{Code: res.StatusCode, Header: res.Header, Body: body}
 }
 
 // Wire sends the raw bytes of r over a fresh connection and parses one response. The upstream sees the real
